@@ -648,8 +648,74 @@ def r04_13(ctx):
         ctx.ok(construct + " (no naive search found)", "", nontrivial=False)
 
 
+def r04_14(ctx):
+    """R04.14 the infix-to-prefix conversion of parser 2 uses every element of the operand/operator list: in each arm of
+    Parser.infix_to_prefix the constant subscripts and slices applied to the list, evaluated for the lengths the arm admits,
+    cover every position (a slice like `[2:-1:2]` next to `[-1]` silently drops the first operand of `A && B && C`; parser 1
+    consumes token by token and cannot)."""
+    repo = ctx.repo
+    f = repo.func(f"{P2}:Parser.infix_to_prefix")
+    ctx.analysed(f.qual)
+    prm = [a.arg for a in f.node.args.args if a.arg != "self"][0]
+    fl = Flow(f.node).run()
+    n_arms = 0
+
+    def admits(test_facts, n) -> bool:
+        env = {"len": lambda x: n, prm: None}
+        for k, pol in test_facts:
+            if f"len({prm})" not in k:
+                continue
+            try:
+                v = eval(compile(ast.parse(k.replace(f"len({prm})", str(n)), mode="eval"), "<guard>", "eval"), {"__builtins__": {}}, {})
+            except Exception:
+                continue
+            if bool(v) != pol:
+                return False
+        return True
+
+    for r in [n for n in ast.walk(f.node) if isinstance(n, ast.Return) and n.value is not None]:
+        gs = fl.guards_at(r) or set()
+        if not any(f"len({prm})" in k for k, _ in gs):
+            continue
+        # every subscript of the list that feeds this return: in the returned expression and in the statements of its block
+        blk = None
+        for parent in ast.walk(f.node):
+            for fld in ("body", "orelse"):
+                b = getattr(parent, fld, None)
+                if isinstance(b, list) and any(x is r for x in b):
+                    blk = b
+        subs = [x for st in (blk or [r]) for x in ast.walk(st) if isinstance(x, ast.Subscript) and isinstance(x.value, ast.Name) and x.value.id == prm]
+        n_arms += 1
+        construct = f"Parser.infix_to_prefix/arm `{ast.unparse(r.value)[:50]}` uses every element of the list"
+        lens = [n for n in range(1, 12) if admits(gs, n)]
+        bad = None
+        for n in lens:
+            pos = list(range(n))
+            used = set()
+            try:
+                for x in subs:
+                    v = eval(compile(ast.Expression(body=ast.fix_missing_locations(ast.Subscript(value=ast.Name(id="L", ctx=ast.Load()), slice=x.slice, ctx=ast.Load()))),
+                                     "<sub>", "eval"), {"__builtins__": {}}, {"L": pos})
+                    used |= set(v) if isinstance(v, list) else {v}
+            except Exception:
+                bad = None
+                used = set(pos)
+            # operands sit at the even positions (the operators of a same-precedence chain are all alike, reading one is enough)
+            need = {i for i in pos if i % 2 == 0} if n > 2 else set(pos)
+            if not need <= used:
+                bad = (n, sorted(need - used))
+                break
+        if bad:
+            ctx.bad(construct, f"for a list of {bad[0]} elements the positions {bad[1]} are never read: the operand there is dropped from the "
+                    "expression parser 2 builds (parser 1 keeps it)", f.loc(r))
+        else:
+            ctx.ok(construct, f.loc(r), lengths=lens)
+    if n_arms < 3:
+        raise AnalysisError(f"only {n_arms} length-guarded arms in infix_to_prefix")
+
+
 def rules():
-    return [("R04.13", r04_13, 1), ("R04.12", r04_12, 5), ("R04.11", r04_11, 3), ("R04.10", r04_10, 4), ("R04.1", r04_1, 20), ("R04.2", r04_2, 25), ("R04.3", r04_3, 14), ("R04.4", r04_4, 8), ("R04.5", r04_5, 5),
+    return [("R04.14", r04_14, 3), ("R04.13", r04_13, 1), ("R04.12", r04_12, 5), ("R04.11", r04_11, 3), ("R04.10", r04_10, 4), ("R04.1", r04_1, 20), ("R04.2", r04_2, 25), ("R04.3", r04_3, 14), ("R04.4", r04_4, 8), ("R04.5", r04_5, 5),
             ("R04.6", r04_6, 3), ("R04.7", r04_7, 3), ("R04.8", r04_8, 4), ("R04.8b", r04_8b, 5), ("R04.9", r04_9, 2)]
 
 
